@@ -39,7 +39,8 @@ import (
 )
 
 type Event struct {
-	Kind string `json:"kind"` // inject | answer | release | app | answerapp | appfail | close
+	Kind string `json:"kind"` // inject | answer | release | app | answerapp | appfail | redeliver | close
+	// redeliver (datagram): the peer retransmits request ID byte for byte (its handler may still be waiting)
 	// appfail: an application request with a 300 ms deadline that the peer never acknowledges or
 	// answers; the scenario goes on once it has failed
 	ID int `json:"id"`
@@ -55,6 +56,9 @@ type Event struct {
 	// per message): the two endpoints' ID spaces are independent (RFC 7252 4.4), so a nested
 	// request and the request being handled may carry the same ID
 	OwnMID int `json:"ownMID,omitempty"`
+	// DropBefore (inject): a DELETE request, which the connection's request monitor asks to drop,
+	// arrives right in front of this message - on a stream in the same write
+	DropBefore bool `json:"dropBefore,omitempty"`
 }
 
 type Scenario struct {
@@ -186,6 +190,10 @@ func Exec(t *testing.T, sc Scenario, r *evid.Run) *evid.Failure {
 			mu.Unlock()
 		}
 		stopRole := func() {}
+		udpMonitor := udpClient.RequestMonitorFunc(func(_ *udpClient.Conn, rq *pool.Message) (bool, error) { return rq.Code() == codes.DELETE, nil })
+		tcpMonitor := tcpClient.RequestMonitorFunc(func(_ *tcpClient.Conn, rq *pool.Message) (bool, error) { return rq.Code() == codes.DELETE, nil })
+		var rawWrite func([]byte)
+		sentDatagram := map[int]refcodec.Msg{}
 		limit, nstart := int64(64), uint32(64)
 		if sc.DefaultLimits {
 			limit, nstart = 1, 1
@@ -193,6 +201,7 @@ func Exec(t *testing.T, sc Scenario, r *evid.Run) *evid.Failure {
 		if sc.Transport == "udp" {
 			link := memnet.NewPacketLink(memnet.LinkCfg{LatencyMs: 1})
 			c, stop, errRole := roles.Packet(sc.Role, link, bubble.Wait, []any{
+				options.WithRequestMonitor(udpMonitor), endpoints.UDPCfg(func(cfg *udpClient.Config) { cfg.RequestMonitor = udpMonitor }),
 				options.WithMessagePool(pool.New(8, 2048)), options.WithPeriodicRunner(tk.Runner()),
 				options.WithBlockwise(false, 6, time.Second), options.WithReceivedMessageQueueSize(sc.Queue),
 				options.WithLimitClientParallelRequest(limit), options.WithLimitClientEndpointParallelRequest(limit),
@@ -209,7 +218,9 @@ func Exec(t *testing.T, sc Scenario, r *evid.Run) *evid.Failure {
 			cc, w, stopRole = c, wire.UDP(link), stop
 		} else {
 			link := memnet.NewStreamLink(memnet.StreamCfg{})
+			rawWrite = func(b []byte) { _, _ = link.B.Write(b) }
 			c, stop, err := roles.Stream(sc.Role, link, bubble.Wait, []any{
+				options.WithRequestMonitor(tcpMonitor), endpoints.TCPCfg(func(cfg *tcpClient.Config) { cfg.RequestMonitor = tcpMonitor }),
 				options.WithMessagePool(pool.New(8, 2048)), options.WithPeriodicRunner(tk.Runner()),
 				options.WithBlockwise(false, 6, time.Second), options.WithReceivedMessageQueueSize(sc.Queue), options.WithCloseSocket(),
 				options.WithLimitClientParallelRequest(limit), options.WithLimitClientEndpointParallelRequest(limit),
@@ -281,7 +292,22 @@ func Exec(t *testing.T, sc Scenario, r *evid.Run) *evid.Failure {
 				if debug {
 					fmt.Printf("  peer->lib inject %d type=%d mid=%d\n", e.ID, m.Type, m.MID)
 				}
+				sentDatagram[e.ID] = m
+				if e.DropBefore {
+					nextMID++
+					d := refcodec.Msg{Code: 4, Type: peer.NON, MID: nextMID & 0xffff, Token: []byte{0x1D, byte(e.ID)}, Opts: peer.PathOpts("dropped")}
+					usedMID[d.MID] = true
+					if rawWrite != nil {
+						rawWrite(append(peer.Frame(d), peer.Frame(m)...))
+						break
+					}
+					w.ToLib(d)
+				}
 				w.ToLib(m)
+			case "redeliver":
+				if m, ok := sentDatagram[e.ID]; ok && w.Datagram() {
+					w.ToLib(m)
+				}
 			case "answer":
 				// answer the nested request(s) of handler ID that are on the wire, one at a time
 				for d := 0; d < 3; d++ {
@@ -488,6 +514,9 @@ func gen(t *rapid.T) Scenario {
 	var nested, gated, apps []int
 	for i := 0; i < n; i++ {
 		kinds := []string{"inject", "inject", "inject"}
+		// ("redeliver" is executed but not generated: a duplicate that arrives while its handler waits
+		// blocks on the per-ID mutex, which the bubble's quiescence detection cannot see through; that
+		// constellation is C05's dedup engine, whose harness is built around it)
 		if !allPlain {
 			if len(nested) > 0 {
 				kinds = append(kinds, "answer", "answer")
@@ -514,6 +543,7 @@ func gen(t *rapid.T) Scenario {
 			e.Beh = rapid.SampledFrom([]string{"plain", "plain", "busy"}).Draw(t, "plainbeh")
 			e.Con = rapid.Bool().Draw(t, "con")
 			e.NoWait = i > 0 && sc.Events[i-1].Kind == "inject" && rapid.IntRange(0, 2).Draw(t, "nowait") > 0
+			e.DropBefore = rapid.IntRange(0, 4).Draw(t, "dropbefore") == 0
 			if !allPlain {
 				e.Beh = rapid.SampledFrom([]string{"plain", "plain", "nested", "nested", "nestedobs", "gated"}).Draw(t, "beh")
 			}
@@ -529,6 +559,8 @@ func gen(t *rapid.T) Scenario {
 			if e.Beh == "gated" {
 				gated = append(gated, e.ID)
 			}
+		case "redeliver":
+			e.ID = rapid.IntRange(0, id-1).Draw(t, "redeliverwhich")
 		case "answer":
 			k := rapid.IntRange(0, len(nested)-1).Draw(t, "which")
 			e.ID = nested[k]
